@@ -29,13 +29,21 @@ func verifRoot() string {
 // Child process handling
 
 type ring struct {
-	mu  sync.Mutex
-	buf []byte
+	mu    sync.Mutex
+	buf   []byte
+	marks int // journal lines seen ("@@…"): progress of the worker
+}
+
+func (r *ring) progress() int {
+	r.mu.Lock()
+	defer r.mu.Unlock()
+	return r.marks
 }
 
 func (r *ring) Write(p []byte) (int, error) {
 	r.mu.Lock()
 	defer r.mu.Unlock()
+	r.marks += bytes.Count(p, []byte("@@"))
 	r.buf = append(r.buf, p...)
 	if len(r.buf) > 1<<18 {
 		r.buf = append([]byte{}, r.buf[len(r.buf)-(1<<17):]...)
@@ -169,6 +177,38 @@ func (c *child) close() {
 	c.rmRaceLog()
 }
 
+// quitBusiestThread sends SIGQUIT to the thread of the process that has used
+// the most CPU (the one running the spinning goroutine), so that the Go
+// runtime's dump shows that goroutine's stack rather than "stack unavailable".
+func quitBusiestThread(pid int) {
+	best, bestCPU := 0, int64(-1)
+	ents, _ := os.ReadDir(fmt.Sprintf("/proc/%d/task", pid))
+	for _, e := range ents {
+		tid, err := strconv.Atoi(e.Name())
+		if err != nil {
+			continue
+		}
+		b, err := os.ReadFile(fmt.Sprintf("/proc/%d/task/%d/stat", pid, tid))
+		if err != nil {
+			continue
+		}
+		st := string(b)
+		i := strings.LastIndexByte(st, ')')
+		f := strings.Fields(st[i+1:])
+		if i < 0 || len(f) < 13 {
+			continue
+		}
+		ut, _ := strconv.ParseInt(f[11], 10, 64)
+		stime, _ := strconv.ParseInt(f[12], 10, 64)
+		if ut+stime > bestCPU {
+			best, bestCPU = tid, ut+stime
+		}
+	}
+	if best == 0 || syscall.Tgkill(pid, best, syscall.SIGQUIT) != nil {
+		syscall.Kill(pid, syscall.SIGQUIT)
+	}
+}
+
 func procCPU(pid int) (time.Duration, bool) {
 	b, err := os.ReadFile(fmt.Sprintf("/proc/%d/stat", pid))
 	if err != nil {
@@ -249,6 +289,8 @@ func (c *child) exec(plan *Plan) *Result {
 	}
 	msg = append(msg, '\n')
 	cpu0, _ := procCPU(c.cmd.Process.Pid)
+	marks0 := c.stderr.progress()
+	begun := false
 	t0 := time.Now()
 	if _, err := c.in.Write(msg); err != nil {
 		c.kill()
@@ -285,14 +327,34 @@ func (c *child) exec(plan *Plan) *Result {
 			return &res
 		case <-tick.C:
 			cpu, ok := procCPU(c.cmd.Process.Pid)
-			if ok && cpu-cpu0 > budgetFor(c.prop) {
-				c.cmd.Process.Signal(syscall.SIGQUIT)
+			// the CPU budget is per journalled step (plan, or case within a
+			// plan), not per plan: a long enumeration that keeps making
+			// progress is not a hang
+			if m := c.stderr.progress(); m != marks0 {
+				marks0, cpu0 = m, cpu
+				begun = true
+			}
+			// Until the worker has journalled "@@BEGIN" for this plan it may
+			// still be collecting the previous plan's garbage (workers run
+			// with the collector off and collect between plans): that time is
+			// not the plan's.
+			budget := budgetFor(c.prop)
+			if !begun {
+				budget = 90 * time.Second
+			}
+			if ok && cpu-cpu0 > budget {
+				quitBusiestThread(c.cmd.Process.Pid)
 				time.Sleep(1500 * time.Millisecond)
 				dump := c.stderr.since(plan.Idx)
 				c.kill()
 				site := libFrameFromDump(dump)
 				if site == "" {
-					return &Result{Idx: plan.Idx, Verdict: "infra", Detail: "CPU budget exceeded outside the library:\n" + tail(dump, 3000)}
+					// the stack of the spinning goroutine may be unavailable; the
+					// property may still be able to classify the case from the plan
+					site = classifyDeath(c.prop, plan, dump, "")
+				}
+				if site == "" {
+					return &Result{Idx: plan.Idx, Verdict: "infra", Detail: fmt.Sprintf("CPU budget exceeded outside the library (cpu %v since the last journal line, %d journal lines):\n%s\n[…]\n%s", cpu-cpu0, marks0, head(dump, 5000), tail(dump, 1500))}
 				}
 				return &Result{Idx: plan.Idx, Verdict: "violation", Class: "hang", Site: classifyDeath(c.prop, plan, dump, site), Detail: fmt.Sprintf("no result after %v of CPU time\n%s", cpu-cpu0, head(dump, 3000)), Evals: 1, Narrow: narrowByJournal(c.prop, plan, dump), NarrowedCase: journalCase(dump)}
 			}
@@ -602,7 +664,7 @@ func ctlMain(propID, tier string) int {
 	}
 	if len(agg.infra) > 0 {
 		for _, s := range agg.infra {
-			fmt.Fprintf(os.Stderr, "INFRA: %s\n", head(s, 3000))
+			fmt.Fprintf(os.Stderr, "INFRA: %s\n", head(s, 9000))
 		}
 		if exit == 0 {
 			exit = 2
